@@ -1365,6 +1365,7 @@ func (schema *Schema) visitXOFOperations(settings *schemaValidationSettings, val
 				discriminatorVal, okcheck := valuemap[pn]
 				if !okcheck {
 					return &SchemaError{
+						Value:                 value,
 						Schema:                schema,
 						SchemaField:           "discriminator",
 						Reason:                fmt.Sprintf("input does not contain the discriminator property %q", pn),
@@ -1798,6 +1799,11 @@ func (schema *Schema) visitJSONString(settings *schemaValidationSettings, value 
 		if cp == nil {
 			var err error
 			if cp, err = schema.compilePattern(settings.regexCompiler); err != nil {
+				if schemaErr, ok := err.(*SchemaError); ok {
+					// the error is about this value too: it could not be checked
+					schemaErr.Value = value
+					schemaErr.customizeMessageError = settings.customizeMessageError
+				}
 				if !settings.multiError {
 					return err
 				}
